@@ -393,6 +393,13 @@ class DFXPWriter(BaseWriter):
 
         caption_set = deepcopy(caption_set)
 
+        # The set-level layout reaches the document only as inline (non-standard)
+        # positioning attributes: there, too, absolute values become percentages
+        if (self.write_inline_positioning and self.relativize
+                and caption_set.layout_info):
+            caption_set.layout_info = caption_set.layout_info.as_percentage_of(
+                self.video_width, self.video_height)
+
         # Loop through all captions/nodes and apply transformations to layout
         # in function of the provided or default settings
         for lang in langs:
